@@ -24,7 +24,7 @@ main( int argc,char* argv[]) {
     if (cmd.help_mode())
         return 0;
 
-    if (argc<2) {
+    if (input_filename1=="" || input_filename2=="" || output_filename=="") {
         std::cout << "Not enough arguments, try the -h option" << std::endl;
         return 1;
     }
